@@ -489,7 +489,7 @@ def run_case(idx, rng, P, rep):
         if shape != 'named' and rng.random() < 0.3:
             kw['name'] = rng.choice(['explicit', cname, 'Outer', cname + '1x', cname + '12_copy', cname + '3 (2)', 'n0',
                                      cname + '00042_copy', cname + '00007-b', cname + '000011', cname + '0001',
-                                     cname + '_2024_00017', cname + '/nightly/20240', cname + 'ner70000', cname + '0123456'])
+                                     cname + '_2024_00017', cname + '/nightly/20240', cname + 'ner70000', cname + '0123456', None])
         try:
             obj = cls(**kw)
         except Exception as e:   # noqa: BLE001
@@ -527,10 +527,15 @@ def run_case(idx, rng, P, rep):
                 cl = classify(vals, 'values-differ', diffs)
                 rep.violation(f'C20/{kind}/{cl}', f'{diffs[:3]} text={text[:300]!r}', case=dict(desc, state=state_desc))
 
-        text = obj.param.pprint()
+        try:
+            text = obj.param.pprint()
+            text2 = param.script_repr(obj)
+        except Exception as e:   # noqa: BLE001
+            # (printing itself fails: whatever the innermost frame is)
+            rep.violation(f'C20/print-raised/{classify(vals, "print-raised")}', f'printing raised {type(e).__name__}: {e}', case=dict(desc, state=state_desc))
+            continue
         rep.count('pprint_evals')
         judge('pprint', text, lambda: eval(text, dict(evalns)))
-        text2 = param.script_repr(obj)
         rep.count('script_repr_evals')
 
         def run_script():
